@@ -114,18 +114,25 @@ var verifC07Lines = []string{
 	"%ab,10.0.0.0/8,mm",
 	".z.ex,192.0.2.53,ns,3600",
 	"+a.ex,192.0.2.1,300",
+	"'t.ex,trailing blank ", // the blank at the end belongs to the text
 }
 
 const verifBadLine = "?not-a-record"
+
+// verifTabLine: only blanks are skipped at the start of a line; a TAB makes the record type invalid
+const verifTabLine = "\t+a.ex,192.0.2.9,300"
 
 func H07_compile() {
 	nlines := nd.Param("lines")
 	var lines []string
 	hasBad := false
 	for i := 0; i < nlines; i++ {
-		k := nd.Choice(len(verifC07Lines) + 1)
+		k := nd.Choice(len(verifC07Lines) + 2)
 		if k == len(verifC07Lines) {
 			lines = append(lines, verifBadLine)
+			hasBad = true
+		} else if k == len(verifC07Lines)+1 {
+			lines = append(lines, verifTabLine)
 			hasBad = true
 		} else {
 			lines = append(lines, verifC07Lines[k])
